@@ -18,7 +18,6 @@ package main
 
 import (
 	"fmt"
-	"regexp"
 	"strings"
 
 	"verifharness/lib"
@@ -272,18 +271,87 @@ var tsMemberPool = []string{
 	"Object[{parent => A, attributes => {w => Integer}, equality => [x, w]}]",
 	"Object[{functions => {f => Callable[[A], B]}}]", "Object[{constants => {c => A}}]", "Object[{constants => {c => B}}]",
 	"TypeSet[{pcore_version => '1.0.0', version => '1.0.0', types => {A => A}}]", "TypeSet[{pcore_version => '1.0.0', version => '1.0.0', types => {X => B}}]",
+	// Variants over two members (they overflowed the stack before the fix of finding variant-alias-cycle)
+	"Variant[A, B]", "Variant[B, C]", "Variant[Optional[B], A]", "Object[{parent => Variant[A, B]}]",
 }
 
-// Open finding variant-alias-cycle: a member that is a Variant of itself and another alias of the set
-// (`B => Variant[B, C], C => Integer`) overflows the stack: NewVariantType normalizes its members with
-// GuardedIsAssignable, whose branch for an alias on the right (types/types.go:137) follows the alias without the
-// recursion guard. The pool above therefore holds no Variant over two members (every such input would cost a
-// deadline and use up the cap of pinned hangs); one representative is run last.
-var typeSetKnown = []string{typeSetText("A => Object[{parent => B}]", "B => Variant[B, C]", "C => Integer")}
+// Fixed finding variant-alias-cycle (/repo fix: GuardedIsAssignable guards an alias on the right): a member that is a
+// Variant of itself and another alias of the set (`B => Variant[B, C], C => Integer`) overflowed the stack - a fatal
+// error - as soon as something compared a type with it (the inferred type of the arguments [Type[B], Type[C]] in the
+// wording of an error message, the value of an attribute, the type of an overriding member): the branch of
+// GuardedIsAssignable for an alias on the right followed the alias without the recursion guard. The representative
+// input and its variations are ordinary inputs now (they must end with a type or a reported error): the alias that
+// contains itself without a type in between - directly, through Optional / NotUndef, through one and two further
+// aliases, twice, two Variants of each other - used as parent of an Object, member of a Struct, key of a Struct,
+// type of an attribute with a value, constant, parameter, element, and where the creator rejects it with a message
+// that words the type (Integer[B], Enum[B]), before and after its declaration.
+func typeSetVariantCycles() []string {
+	ts := []string{typeSetText("A => Object[{parent => B}]", "B => Variant[B, C]", "C => Integer")}
+	type self struct{ b, more string }
+	selves := []self{
+		{"Variant[B, C]", ""}, {"Variant[C, B]", ""}, {"Variant[B, B]", ""}, {"Variant[B, C, B]", ""},
+		{"Optional[B]", ""}, {"NotUndef[B]", ""}, {"Variant[Optional[B], C]", ""}, {"Variant[NotUndef[B], C]", ""}, {"Optional[Variant[B, C]]", ""},
+		{"Variant[D, C]", "D => B"}, {"Variant[D, C]", "D => E, E => B"}, {"D", "D => Variant[B, C]"}, {"Variant[D, C]", "D => Variant[B, C]"},
+		{"Variant[D, B]", "D => Variant[B, D]"}, {"Variant[Variant[B, C], C]", ""}, {"B", ""}, {"D", "D => B"},
+	}
+	others := []string{"Integer", "String", "Object[{}]", "Array[B]"}
+	users := []string{
+		"Object[{parent => B}]", "Object[{parent => B, attributes => {x => Integer}}]", "Struct[{m => B}]", "Struct[{Optional[m] => B}]", "Struct[{B => Integer}]",
+		"Object[{attributes => {x => B}}]", "Object[{attributes => {x => {type => B, value => 1}}}]", "Object[{attributes => {x => {type => B, value => 'a'}}}]",
+		"Object[{attributes => {x => {type => Optional[B], value => undef}}}]", "Object[{constants => {c => B}}]", "Object[{type_parameters => {p => B}}]",
+		"Object[{functions => {f => Callable[[B], C]}}]", "Array[B]", "Tuple[B, C]", "Hash[B, C]", "Variant[B, C]", "Variant[C, B]", "Optional[B]", "NotUndef[B]", "Type[B]",
+		"Callable[[B], C]", "Init[B]", "Iterable[B]", "Sensitive[B]", "Integer[B]", "Enum[B]", "Integer[B, C]", "String[B]", "Array[Integer, B]", "Like[B, x]", "B", "B[1]",
+	}
+	for _, sf := range selves {
+		for oi, o := range others {
+			for ui, u := range users {
+				ms := []string{"A => " + u, "B => " + sf.b, "C => " + o}
+				if sf.more != "" {
+					ms = append(ms, sf.more)
+				}
+				if (oi+ui)%2 == 1 {
+					// the user after the declarations
+					ms[0], ms[len(ms)-1] = ms[len(ms)-1], ms[0]
+				}
+				ts = append(ts, typeSetText(ms...))
+			}
+		}
+	}
+	return ts
+}
 
-var reVariantMember = regexp.MustCompile(`Variant\[[^\]]*\b[A-D]\b`)
-
-func variantOverMembers(s string) bool { return strings.HasPrefix(s, tsHead) && reVariantMember.MatchString(s) }
+// typeSetIllegalParents (/repo fix 44b8067): an Object type whose parent is a container of members of the set - the
+// Object type itself among them - or an alias of one. objectType.resolvedParent words the error with the parent's
+// type; wording a Tuple / Variant / Hash infers the common type of its members, which compares the Object type that is
+// being rejected with the other member (an interface: the comparison asks for the functions, the inherited ones
+// included) - the same error was raised and worded again until the stack overflowed.
+func typeSetIllegalParents() []string {
+	ts := []string{typeSetText("A => Object[{functions => {x => Callable[[], Integer]}}]", "B => Object[{parent => C}]", "C => Tuple[A, B]"),
+		typeSetText("A => Variant[B, C]", "B => Object[{functions => {f => Callable[[A], B]}}]", "C => Object[{parent => A, equality => [x]}]"),
+		// thorough tier, seed 1, on the tree before the fix
+		typeSetText("C => Tuple[A, B]", "B => Object[{functions => {f => Callable[[A], B]}}]", "A => Object[{parent => C}]")}
+	parents := []string{"Tuple[A, B]", "Tuple[B, A]", "Variant[A, B]", "Variant[B, A, Integer]", "Hash[A, B]", "Struct[{a => A, b => B}]", "Callable[[A], B]", "Array[Variant[A, B]]",
+		"Tuple[A, B, D]", "Variant[D, A]", "Optional[Tuple[B, A]]"}
+	as := []string{"Object[{functions => {x => Callable[[], Integer]}}]", "Object[{}]", "Object[{attributes => {x => Integer}}]", "Object[{functions => {f => Callable[[A], B]}}]",
+		"Object[{parent => C}]", "Integer"}
+	bs := []string{"Object[{parent => C}]", "Object[{parent => C, functions => {x => Callable[[], Integer]}}]", "Object[{parent => C, equality => [x]}]", "Object[{parent => D}]",
+		"Object[{parent => C, attributes => {x => Integer}}]"}
+	for pi, pt := range parents {
+		for ai, a := range as {
+			for bi, b := range bs {
+				ms := []string{"A => " + a, "B => " + b, "C => " + pt, "D => C"}
+				switch (pi + ai + bi) % 3 {
+				case 1:
+					ms[0], ms[2] = ms[2], ms[0]
+				case 2:
+					ms[1], ms[3] = ms[3], ms[1]
+				}
+				ts = append(ts, typeSetText(ms...))
+			}
+		}
+	}
+	return ts
+}
 
 func resolveTypeSetPairs() []string {
 	var ts []string
